@@ -219,3 +219,41 @@ func HarnessC13Missing() {
 		verifCheckf(other >= 1, "missing-mandatory-key-hidden-by-an-unknown-sibling", mk.key)
 	}
 }
+
+// HarnessC13Siblings: an unknown key never hides the diagnostics of its
+// siblings — a schedule item whose cron value is wrong next to a foreign key;
+// a job with several keys that do not fit its kind.
+func HarnessC13Siblings() {
+	s := yScalar
+	switch verifChoose("case", 4) {
+	case 0, 1:
+		cronVal := []string{"", "invalid"}[verifChoose("cron", 2)]
+		cron := s(cronVal)
+		item := yMap(s("cron"), cron)
+		if verifChoose("foreign", 2) == 1 {
+			item = yMap(s("cron"), cron, s("timezone"), s("UTC"))
+		}
+		doc := yDoc(yMap(s("on"), yMap(s("schedule"), ySeq(item)), s("jobs"), yMap(s("j"), yMap(s("runs-on"), s("ubuntu-latest"), s("steps"), ySeq(yMap(s("run"), s("echo")))))))
+		verifPlace(doc, 1, 0)
+		errs := verifLintNode(doc, verifRules())
+		verifReach("schedule")
+		verifCheck(verifErrAt(errs, cron) >= 1, "unknown-key-hides-sibling-diagnostic")
+	case 2:
+		// a reusable workflow call with two keys that are only for normal jobs
+		k1, k2 := s("runs-on"), s("timeout-minutes")
+		doc := yDoc(yMap(s("on"), s("push"), s("jobs"), yMap(s("j"), yMap(s("uses"), s("o/r/.github/workflows/w.yml@v1"), k1, s("ubuntu-latest"), k2, yTagged("!!int", "5")))))
+		verifPlace(doc, 1, 0)
+		p := &parser{}
+		p.parse(doc)
+		verifReach("call-job")
+		verifCheck(verifErrAt(p.errors, k1) >= 1 && verifErrAt(p.errors, k2) >= 1, "inapplicable-job-key-not-reported")
+	default:
+		k1, k2 := s("with"), s("secrets")
+		doc := yDoc(yMap(s("on"), s("push"), s("jobs"), yMap(s("j"), yMap(s("runs-on"), s("ubuntu-latest"), s("steps"), ySeq(yMap(s("run"), s("echo"))), k1, yMap(s("a"), s("b")), k2, yMap(s("c"), s("d"))))))
+		verifPlace(doc, 1, 0)
+		p := &parser{}
+		p.parse(doc)
+		verifReach("normal-job")
+		verifCheck(verifErrAt(p.errors, k1) >= 1 && verifErrAt(p.errors, k2) >= 1, "inapplicable-job-key-not-reported")
+	}
+}
